@@ -252,9 +252,15 @@ class BehavioralRTLIRToVVisitorL1( bir.BehavioralRTLIRNodeVisitor ):
     assignment_op = '<=' if not node.blocking else '='
     tplt = '{target} {assignment_op} {value};'
 
+    # Python evaluates the right-hand side of `t = u = f(u)` once: assign it to
+    # the last target and copy that target to the others, instead of repeating
+    # the text of the right-hand side after one of its operands has changed.
+    last = targets[-1]
     return [ tplt.format(
-      target = target, assignment_op = assignment_op, value = value
-    ) for target in reversed(targets) ]
+      target = last, assignment_op = assignment_op, value = value
+    ) ] + [ tplt.format(
+      target = target, assignment_op = assignment_op, value = last
+    ) for target in reversed(targets[:-1]) ]
 
   # register_assign_LHS
 
